@@ -184,13 +184,15 @@ def run_kani(dst, harnesses, package="open-coroutine-core", jobs=None, timeout=1
     if extra:
         cmd += extra
     env = {"RUSTFLAGS": "--cap-lints warn", "CARGO_NET_OFFLINE": "true", "CARGO_TERM_COLOR": "never"}
-    rc, out, wall, to = sh(cmd, cwd=dst, env=env, timeout=timeout, mem_gb=mem_gb)
+    rc, out, wall, to = sh(cmd, cwd=dst, env=env, timeout=timeout, mem_gb=mem_gb or float(os.environ.get("VERIF_MEM_GB", "24")))
     return rc, out, wall, to, " ".join(cmd)
 
 
 def classify_check(c, harness_files):
     """registered / generated-in-crate / foreign"""
     d = c["desc"]
+    if d.startswith("SHIM-CONTRACT:"):
+        return "named", "dependency_contract[" + re.sub(r"\s+", "_", d[len("SHIM-CONTRACT:"):].strip())[:70] + "]"
     m = re.match(r"(C\d\d[A-Za-z0-9_.]*)", d)
     if m and re.match(r"C\d\d\.", d):
         return "named", d.split()[0]
